@@ -98,6 +98,30 @@ def _all_paths(t, acc):
         _all_paths(x, acc)
 
 
+BOUNDED_FORMS = ["(T)", "Option<(T)>", "&'static (dyn PlainD<T> + Send)", "Box<(dyn PlainD<T> + Sync)>", "*const (dyn PlainD<T> + Send)",
+                 "[T; 2]", "(T, u8)", "(T,)", "fn(T) -> u8", "Vec<T>", "&'static mut (T)", "W1<(T, (u8))>"]
+
+
+def _all_bounded(t, base, acc):
+    """(where, type) for every where-predicate `X: …base…` and every projection `<X as …base…>::A` in a tree"""
+    if t[0] != "N":
+        return
+    if t[1] == "WherePredicate::Type":
+        pt = t[3][0]
+        bounded, bounds = pt[3][1], pt[3][2][3]
+        for b in bounds:
+            if b[1] == "TypeParamBound::Trait" and b[3][0][3][3][3][1][3][-1][3][0] == base:
+                acc.append(("where-clause", bounded))
+    if t[1] in ("Type::Path", "Expr::Path") and t[3][-2][1] == "Some":
+        q = t[3][-2][3][0]
+        pos = int(q[3][1][2][0]) if q[3][1][2] else 0
+        segs = t[3][-1][3][1][3]
+        if q[3][2][1] == "Some" and pos and segs[pos - 1][3][0] == base:
+            acc.append(("projection", q[3][0]))
+    for x in t[3]:
+        _all_bounded(x, base, acc)
+
+
 def emission_stage(rep, exe, rng, n):
     """end to end: the bound the REAL expansion carries in the main impl's where-clause and in every projection is the
     user's bound with exactly the bindings removed — also for the second and later members of a family, whose bounds went
@@ -116,6 +140,9 @@ def emission_stage(rep, exe, rng, n):
         nm = rng.choice([2, 2, 3])
         shape = rng.choice(["T", "T", "Vec<T>", "(T, U)"])
         blocks = []
+        # the bounded half of the key: mostly the bare parameter, sometimes a type built from it — with parentheses that are part of the
+        # type's spelling (`&'static (dyn PlainD<T> + Send)` does not even parse without them; seeded change C12g)
+        bt = "T" if rng.random() < 0.6 else rng.choice(BOUNDED_FORMS)
         for i in range(nm):
             bind = f"{assoc} = G{i}"
             args = ", ".join([a for a in [targs] if a] + [bind])
@@ -126,15 +153,20 @@ def emission_stage(rep, exe, rng, n):
             if i > 0 and shape == "T" and rng.random() < 0.35:
                 blocks.append(f"impl<V> Kita for Vec<V> where Vec<V>: {b} {{ const NAME: &'static str = \"b{i}\"; }}")
                 continue
-            if rng.random() < 0.5:
+            if bt == "T" and rng.random() < 0.5:
                 blocks.append(f"impl<{gen.replace('T', 'T: ' + b, 1)}> Kita for {hdr} {{ const NAME: &'static str = \"b{i}\"; }}")
             else:
-                blocks.append(f"impl<{gen}> Kita for {hdr} where T: {b} {{ const NAME: &'static str = \"b{i}\"; }}")
-        invs.append((tr, "pub trait Kita { const NAME: &'static str; } " + " ".join(blocks), blocks))
+                blocks.append(f"impl<{gen}> Kita for {hdr} where {bt}: {b} {{ const NAME: &'static str = \"b{i}\"; }}")
+        if bt != "T":
+            # no nested members here: the bounded type is compared in the family's own numbering (`T` is `_ŠČ0` in every header shape used)
+            blocks = [b_ for b_ in blocks if " for Vec<V> " not in b_]
+        invs.append((tr, "pub trait Kita { const NAME: &'static str; } " + " ".join(blocks), blocks, bt))
     from .shape import GenDump
-    res = C.run_hook(exe, [("gen", [inv]) for _, inv, _ in invs], tag="hooke")
-    dres = C.run_hook(exe, [("dump", ["path", tr]) for tr, _, _ in invs], tag="hooked")
-    for (tr, inv, blocks), (st, f), (dst, df) in zip(invs, res, dres):
+    res = C.run_hook(exe, [("gen", [inv]) for _, inv, _, _ in invs], tag="hooke")
+    dres = C.run_hook(exe, [("dump", ["path", tr]) for tr, _, _, _ in invs], tag="hooked")
+    import re as _re
+    bres = C.run_hook(exe, [("dump", ["type", _re.sub(r"\bT\b", "_ŠČ0", bt)]) for _, _, _, bt in invs], tag="hookeb")
+    for (tr, inv, blocks, bt), (st, f), (dst, df), (bst, bf) in zip(invs, res, dres, bres):
         if st != "ok" or dst != "ok":
             rep.count("emission:hook-" + st)
             continue
@@ -171,6 +203,23 @@ def emission_stage(rep, exe, rng, n):
             if not seen:
                 rep.oracle_failures.append({"clause": "the main impl carries no bound of the dispatch trait", "user_bound": tr, "invocation": inv,
                                             "main_impl": fam["main_toks"][:800]})
+            # the BOUNDED half of the key: every predicate `X: <dispatch trait>` of the main impl and every projection `<X as <dispatch trait>>::A`
+            # names the user's bounded type exactly (parentheses included), in the family's numbering
+            if bst == "ok":
+                want_b = decode(parse_dbg(bf[0]))
+                accb = []
+                _all_bounded(fam["main"][3][0], base, accb)
+                rep.count("emission:bounded-form:" + ("param" if bt == "T" else "composite"))
+                for where, got_b in accb:
+                    rep.count("emission:bounded-" + where)
+                    if got_b != want_b:
+                        rep.oracle_failures.append({"clause": "the bounded type emitted in the generated " + where + " is not the user's bounded type",
+                                                    "user_bounded": bt, "user_bound": tr, "first_difference": list(tref.first_diff(want_b, got_b) or [])[-5:],
+                                                    "invocation": inv, "main_impl": fam["main_toks"][:800]})
+                        break
+                if not accb:
+                    rep.oracle_failures.append({"clause": "the main impl carries no predicate or projection of the dispatch key", "user_bounded": bt,
+                                                "invocation": inv, "main_impl": fam["main_toks"][:800]})
 
 
 def run(tier, seed, replay=None):
